@@ -37,7 +37,7 @@ class Case:
         k = self.cls[c - 1]["members"][j - 1]["k"]
         if k == "gct":
             return "get_class_type"
-        if k == "dtor":
+        if k in ("dtor", "vdtor"):
             return "~" + self.cname(c)
         return "k%dc%dm%d" % (self.i, c, j)
 
@@ -116,23 +116,59 @@ class Case:
             return "%s *%s();" % (self.refname(m["rc"], 0), n)
         if k == "nclass":
             return self.class_text(m["rc"], "  ")
+        if k == "vmeth":
+            return "virtual void %s();" % n
+        if k == "vdtor":
+            return "virtual ~%s();" % C
+        if k == "opeq":
+            return "bool operator == (const %s &p1) const;" % C
+        if k == "opneg":
+            return "%s operator - () const;" % C
+        if k == "cast":
+            return "operator int () const;"
+        if k == "cdata":
+            return "const int %s;" % n
+        if k == "sdata":
+            return "static int %s;" % n
         if k == "sig":
             return self.sig_text(m["sig"], n, C)
         raise ValueError(k)
 
+    DEFAULT = {"int": "7", "double": "1.5", "bool": "true", "cls": "nullptr"}
+
     def sig_text(self, s, n, C=None):
         ps = []
-        for q, p in enumerate(s["ps"]):
+        for q, p in enumerate(s["ps"], 1):
             t = self.ty(p["t"])
-            x = "%s %s" % (t, p["n"]) if p["n"] else t
+            x = "%s p%d" % (t, q) if p["n"] else t
             if p["d"]:
-                x += " = " + p["d"]
+                x += " = " + self.DEFAULT[p["t"]["b"]]
             ps.append(x)
-        pre = ("static " if s["st"] else "") + ("virtual " if s["vi"] in ("virt", "pure") else "")
-        post = (" const" if s["cn"] else "") + (" = 0" if s["vi"] == "pure" else "")
-        if s.get("role") == "ctor":
+        role = s["role"]
+        pre = {"static": "static ", "virt": "virtual "}.get(role, "")
+        post = " const" if role == "const" else ""
+        if role == "ctor":
             return "%s(%s);" % (C, ", ".join(ps))
         return "%s%s %s(%s)%s;" % (pre, self.ty(s["ret"]), n, ", ".join(ps), post)
+
+    def doc(self, style, what):
+        """the documentation comment written in front of an entity ("" = none)"""
+        if style == "//":
+            return "// doc %s" % what
+        if style == "/*":
+            return "/* doc %s */" % what
+        return ""
+
+    def dbname(self, c, j):
+        """name of the function a member stands for in the database"""
+        k = self.cls[c - 1]["members"][j - 1]["k"]
+        return {"opeq": "operator ==", "opneg": "operator -", "cast": "operator typecast int",
+                "vdtor": "~" + self.cname(c)}.get(k) or self.mname(c, j)
+
+    def dbtype(self, t):
+        """how the database names a type [b, m, c]"""
+        b = BASE_T.get(t["b"]) or self.cscoped(t["c"])
+        return {"val": "%s", "ptr": "%s *", "cptr": "%s const *", "ref": "%s &", "cref": "%s const &"}[t["m"]] % b
 
     def class_text(self, c, ind=""):
         k = self.cls[c - 1]
@@ -141,9 +177,8 @@ class Case:
         for j, m in enumerate(k["members"], 1):
             if m["lab"] != "same":
                 L.append(ind + LABEL[m["lab"]])
-            cm = m.get("cmt")
-            if cm:
-                L.append(ind + "  " + cm)
+            if m.get("cm"):
+                L.append(ind + "  " + self.doc(m["cm"], self.mname(c, j)))
             L.append(ind + "  " + self.member_text(c, j).replace("\n", "\n  "))
         L.append(ind + "};")
         return "\n".join(L)
@@ -192,11 +227,11 @@ class Case:
             if o["t"] == "c":
                 k = self.cls[o["id"] - 1]
                 if k["file"] == f:
-                    L.append(self.wrap(self.class_text(o["id"]), k["region"], k["ns"], k.get("cmt")))
+                    L.append(self.wrap(self.class_text(o["id"]), k["region"], k["ns"], self.doc(k.get("cm"), self.cname(o["id"]))))
             else:
                 d = self.tops[o["id"] - 1]
                 if d["file"] == f:
-                    L.append(self.wrap(self.top_text(o["id"]), d["region"], d["ns"], d.get("cmt")))
+                    L.append(self.wrap(self.top_text(o["id"]), d["region"], d["ns"], self.doc(d.get("cm"), self.tname(o["id"]))))
         return "\n".join(L) + "\n"
 
     def command_text(self):
